@@ -3,6 +3,6 @@ from . import semprops, semjobs
 # the pre-study family: b: and(b,a), c: c, statement a symbolic (contains a: c, where heuristics a/b lose the stable model FFF)
 B_AND_BA = [((a >> 1) & 1) & (a & 1) for a in range(8)]
 C_C = [(a >> 2) & 1 for a in range(8)]
-spec, validate = semprops.make(['heu_a', 'heu_b'], 'heu_a', must3=[['sym', B_AND_BA, C_C]], backend_kinds=('stable_counting',), quick_n3=10)
+spec, validate = semprops.make(['heu_a', 'heu_b'], 'heu_a', must3=[['sym', B_AND_BA, C_C]], backend_kinds=('stable_counting',), quick_n3=10, extra_params={'heu_b': {'skip_n4': True}})
 replay = semprops.replay
 key = semprops.key
